@@ -1526,6 +1526,16 @@ class LigatureSubst(FormatSwitchingBaseTable):
         self.ligatures = ligatures
         del self.Format  # Don't need this anymore
 
+    def ensureDecompiled(self, recurse=False):
+        super().ensureDecompiled(recurse=recurse)
+        if recurse:
+            # postRead() moves the (possibly still lazy) Ligature subtables into
+            # self.ligatures, where iterSubTables() no longer finds them
+            for ligatureSet in getattr(self, "ligatures", {}).values():
+                for ligature in ligatureSet:
+                    if isinstance(ligature, BaseTable):
+                        ligature.ensureDecompiled(recurse=recurse)
+
     @staticmethod
     def _getLigatureSortKey(components):
         # Computes a key for ordering ligatures in a GSUB Type-4 lookup.
